@@ -1314,8 +1314,13 @@ fn run_cache_k<K: std::hash::Hash + Eq + core::fmt::Debug>(cap: u64, ops: &[&str
 
 /// A key type whose hash is deliberately weak (three hash values in all): the cache is generic in the key and
 /// may rely on `Eq`, never on hashes being distinct.
-#[derive(Debug, PartialEq, Eq, Clone)]
+#[derive(Debug, PartialEq, Eq, Clone, Copy, PartialOrd, Ord, Default)]
 struct WeakKey(u64);
+impl core::fmt::Display for WeakKey {
+    fn fmt(&self, f: &mut core::fmt::Formatter<'_>) -> core::fmt::Result {
+        write!(f, "{}", self.0)
+    }
+}
 impl std::hash::Hash for WeakKey {
     fn hash<H: std::hash::Hasher>(&self, state: &mut H) {
         state.write_u8((self.0 % 3) as u8);
